@@ -3,6 +3,7 @@
 #include "pv.h"
 #include <sys/mman.h>
 #include <unistd.h>
+#include <pthread.h>
 
 static const size_t KEYSIZES[] = { 0, 1, 16, 32, 33, 64, 4096 };
 static uint8_t* g_page;          /* three pages; the key of the protected sub-sample lives in the middle one */
@@ -187,7 +188,46 @@ static void run_neigh(uint64_t idx, pv_rng* rng) {
     }
 }
 
+/* the same clause under contention: threads derive keys from their own seeds at the same time (yields inside the KDF
+ * monitor widen the window); every call must still see exactly its own model inputs */
+typedef struct cctx { uint64_t seed; int n; uint64_t bad, good; char first[300]; } cctx;
+static void* cworker(void* p) {
+    cctx* c = p;
+    pv_world_init(c->seed); pv_w->yield_pct = 35; pv_rng_seed(&pv_w->yield_rng, c->seed, 1, 2);
+    pv_rng r; pv_rng_seed(&r, c->seed, 0xc04, 9);
+    uint8_t* img = malloc(32); uint8_t* key = malloc(32);
+    for (int i = 0; i < c->n; ++i) {
+        pv_mseed m; pv_gen_mseed(&r, 7, true, &m); unsigned coin = pv_gen_coin(&r);
+        pv_m_image(&m, img);
+        polyseed_data* s = NULL;
+        if (polyseed_load(img, &s) != POLYSEED_OK) continue;
+        pv_world_begin("polyseed_keygen"); polyseed_keygen(s, (polyseed_coin)coin, 32, key); pv_world_end();
+        uint8_t pw[32], salt[32]; pv_m_password(&m, pw); pv_m_salt(&m, coin, salt);
+        bool ok = pv_w->nkdf == 1 && pv_w->kdf[0].pwlen == 32 && pv_w->kdf[0].saltlen == 32 && !memcmp(pv_w->kdf[0].pw, pw, 32) && !memcmp(pv_w->kdf[0].salt, salt, 32);
+        if (ok) { uint8_t exp[32]; pv_kdf_mix(pw, 32, salt, 32, 10000, exp, 32); ok = !memcmp(exp, key, 32); }
+        if (!ok && !c->bad++) snprintf(c->first, sizeof c->first, "seed %s coin %u: salt seen by the KDF %s, specification %s", pv_mseed_str(&m), coin, pv_hex(pv_w->kdf[0].salt, 32), pv_hex(salt, 32));
+        if (ok) c->good++;
+        polyseed_free(s);
+        pv_w->nev = 0; pv_w->nkdf = 0;
+    }
+    free(img); free(key); free(pv_w); pv_w = NULL;
+    return NULL;
+}
+static uint64_t n_conc(void) { return pv_scaled(4, 40); }
+static void run_conc(uint64_t idx, pv_rng* rng) {
+    enum { NT = 8 };
+    static cctx c[NT]; pthread_t th[NT]; pv_world* mainw = pv_w;
+    for (int t = 0; t < NT; ++t) { memset(&c[t], 0, sizeof c[t]); c[t].seed = pv_rand64(rng); c[t].n = 2500; pthread_create(&th[t], NULL, cworker, &c[t]); }
+    for (int t = 0; t < NT; ++t) pthread_join(th[t], NULL);
+    pv_w = mainw;
+    for (int t = 0; t < NT; ++t) {
+        PV_COUNT("evaluations", (uint64_t)c[t].n); PV_COUNT("concurrent.keygens_equal_model", c[t].good);
+        if (c[t].bad) pv_violation("C04/inputs-corrupted-under-concurrency", "%llu of %d concurrent keygen calls of thread %d saw foreign inputs; first: %s", (unsigned long long)c[t].bad, c[t].n, t, c[t].first);
+        else PV_DISTINCT("nontrivial", pv_mix(c[t].seed, idx));
+    }
+}
+
 int main(int argc, char** argv) {
-    static const pv_section secs[] = { { "keygen", n_keygen, run_keygen }, { "paths", n_paths, run_paths }, { "neighbours", n_neigh, run_neigh } };
-    return pv_main(argc, argv, "C04", secs, 3, init, NULL);
+    static const pv_section secs[] = { { "keygen", n_keygen, run_keygen }, { "paths", n_paths, run_paths }, { "neighbours", n_neigh, run_neigh }, { "concurrent", n_conc, run_conc } };
+    return pv_main(argc, argv, "C04", secs, 4, init, NULL);
 }
